@@ -538,3 +538,18 @@ def descriptor_aliases(fi, pkg_param='package'):
                     changed = True
                     break
     return names | roots
+
+
+def block_of(node):
+    """The statement list that contains `node` (body / orelse / finalbody / handler body of its parent)."""
+    parent = getattr(node, '_parent', None)
+    for fld in ('body', 'orelse', 'finalbody'):
+        b = getattr(parent, fld, None)
+        if isinstance(b, list) and node in b:
+            return b
+    return []
+
+
+def stmts_after(node):
+    b = block_of(node)
+    return b[b.index(node) + 1:] if b else []
